@@ -87,12 +87,13 @@ enum RealOut {
 /// owner anchors of the positions the shared AST has no slot for: "(" of an argument list, "{" of a selection set
 #[derive(Default)]
 struct Anchors {
-    args: HashMap<(usize, usize), (usize, usize)>,
-    sels: HashMap<(usize, usize), (usize, usize)>,
+    // keyed by (file, line, column): a merged multi-file document has equal (line, column) pairs in different files
+    args: HashMap<(usize, usize, usize), (usize, usize, usize)>,
+    sels: HashMap<(usize, usize, usize), (usize, usize, usize)>,
 }
 
-fn lc(p: &nitrogql_ast::base::Pos) -> (usize, usize) {
-    (p.line, p.column)
+fn lc(p: &nitrogql_ast::base::Pos) -> (usize, usize, usize) {
+    (p.file, p.line, p.column)
 }
 
 impl Anchors {
@@ -103,7 +104,7 @@ impl Anchors {
             }
         }
     }
-    fn selset(&mut self, ss: &RSelectionSet, owner: (usize, usize)) {
+    fn selset(&mut self, ss: &RSelectionSet, owner: (usize, usize, usize)) {
         self.sels.insert(lc(&ss.position), owner);
         for s in &ss.selections {
             match s {
@@ -146,13 +147,13 @@ impl Anchors {
         a
     }
     fn canon(&self, d: &Diag) -> Triple {
-        let key = (d.line, d.col);
+        let key = (d.file, d.line, d.col);
         let p = match d.kind.as_str() {
             "ArgumentsNotNeeded" | "RequiredArgumentNotSpecified" => self.args.get(&key).copied().unwrap_or(key),
             "SelectionOnInvalidType" => self.sels.get(&key).copied().unwrap_or(key),
             _ => key,
         };
-        (d.kind.clone(), p.0, p.1)
+        (d.kind.clone(), p.1, p.2)
     }
 }
 
@@ -390,7 +391,7 @@ impl<'a> Ctx<'a> {
                 };
                 let has_spec = match imports::abstract_merge(&files, ri) {
                     Ok(d) => {
-                        reqs.push(Sexp::call("valid.spec", vec![ts.clone(), d.to_sexp()]));
+                        reqs.push(Sexp::call(if projects[pi].labels.is_empty() { "valid.spec" } else { "valid.rules" }, vec![ts.clone(), d.to_sexp()]));
                         abstracts.insert((pi, ri), Ok(()));
                         true
                     }
@@ -438,7 +439,65 @@ impl<'a> Ctx<'a> {
             }
             let a = &ans[k];
             k += 1;
-            if self.prop != "C04" {
+            if self.prop == "C03" && !p.labels.is_empty() {
+                // ---- O (C03): the abstract merge violates the labelled rule(s) ⇒ a diagnostic of a kind of the rule ----
+                let rules = strs(a);
+                if a.head() != Some("rules") || !p.labels.iter().all(|l| rules.contains(&l.rule)) {
+                    self.rep.count(&format!("import:fault-not-in-this-root's-merge:{}", p.labels[0].mutation));
+                    continue;
+                }
+                self.rep.o_cases += 1;
+                if ri == 0 {
+                    for f in &p.features {
+                        self.rep.count(&format!("feature:{f}"));
+                    }
+                }
+                self.rep.nontrivial(&format!("{}|{}|{}", p.sdl.join("\n"), ri, p.files.iter().map(|f| format!("{}\n{}", f.path, f.text)).collect::<Vec<_>>().join("\n--\n")));
+                let l = &p.labels[0];
+                self.rep.count(&format!("import-mutation:{}", l.mutation));
+                let kinds: Vec<String> = p.labels.iter().flat_map(|l| self.kinds.get(&l.rule).cloned().unwrap_or_default()).collect();
+                // signature: the rule and WHERE the fault sits relative to the root — not the site inside the definition
+                let place = if l.class.starts_with("import/") {
+                    l.class.clone()
+                } else if p.fault_files.is_empty() {
+                    "import/document-or-operation-level-fault".to_string()
+                } else if p.fault_files.contains(&ri) {
+                    "import/fault-in-importing-file".to_string()
+                } else {
+                    "import/fault-in-imported-file".to_string()
+                };
+                self.rep.count(&format!("class:{place}"));
+                match &o.roots[ri] {
+                    imports::RootOut::Checked { raw, diags, .. } => {
+                        let of_kind: Vec<&Diag> = raw.iter().zip(diags.iter()).filter(|(_, t)| kinds.contains(&t.0)).map(|(d, _)| d).collect();
+                        if raw.is_empty() {
+                            self.fail("O", &format!("{}:{}", l.rule, place), &format!("multi-file document (root {}) accepted with no diagnostic although its merge violates rule {} ({} at {})", p.files[ri].path, l.rule, l.mutation, l.class), p.to_json(&self.prop, ri), size);
+                        } else if of_kind.is_empty() {
+                            self.fail(
+                                "O",
+                                &format!("{}:{}", l.rule, place),
+                                &format!("multi-file document (root {}): rule {} is violated ({} at {}) but no diagnostic of its kinds {:?}; got {:?}", p.files[ri].path, l.rule, l.mutation, l.class, kinds, diags.iter().map(|d| &d.0).collect::<BTreeSet<_>>()),
+                                p.to_json(&self.prop, ri),
+                                size,
+                            );
+                        } else if !p.fault_files.is_empty() && !of_kind.iter().any(|d| d.file >= 1 && p.fault_files.contains(&(d.file - 1))) {
+                            self.fail(
+                                "O",
+                                &format!("{}:{}/diagnostic-not-located-in-the-faulty-file", l.rule, place),
+                                &format!("multi-file document (root {}): the fault ({} at {}) is confined to fragment definitions of file(s) {:?}, but every diagnostic of the rule's kinds is located elsewhere: {:?}", p.files[ri].path, l.mutation, l.class, p.fault_files.iter().map(|i| p.files[*i].path.clone()).collect::<Vec<_>>(), of_kind.iter().map(|d| (d.kind.clone(), d.file, d.line, d.col)).collect::<Vec<_>>()),
+                                p.to_json(&self.prop, ri),
+                                size,
+                            );
+                        }
+                    }
+                    imports::RootOut::ImportError(kind, _) => self.rep.count(&format!("import:labelled-root-import-error:{kind}")),
+                    imports::RootOut::Panic(m) => {
+                        self.fail("O", "import:panic", &format!("the real pipeline panicked (root {}): {m}", p.files[ri].path), p.to_json(&self.prop, ri), size);
+                    }
+                }
+                continue;
+            }
+            if self.prop != "C04" || !p.labels.is_empty() {
                 continue;
             }
             let spec_ok = a.head() == Some("spec") && a.args().first().and_then(|x| x.as_atom()) == Some("true");
@@ -764,6 +823,10 @@ pub fn run(prop: &str) {
         let s1 = corpus()[0].sdl[0].clone();
         ctx.group_projects(&[s1.clone()], imports::corpus(&s1));
     }
+    if prop == "C03" {
+        let s1 = corpus()[0].sdl[0].clone();
+        ctx.group_projects(&[s1.clone()], imports::corpus_c03(&s1));
+    }
 
     // hash (property, seed): adjacent SplitMix seeds would give the same stream shifted by one draw
     let mut rng = Rng::new(nvh::report::fnv(&format!("{prop}:{}", args.seed)));
@@ -833,6 +896,32 @@ pub fn run(prop: &str) {
                 // multi-file projects with #import (every other document)
                 if di % 2 == 0 {
                     if let Some(p) = imports::gen_project(&mut rng, &sdl, &doc, noisy) {
+                        projects.push(p);
+                    }
+                }
+            }
+            if prop == "C03" && di % 2 == 1 {
+                // multi-file projects with one labelled fault: (a) a single-file operator applied to the document
+                // BEFORE its definitions are dealt over the files — the fault lands in the root file or in a file it
+                // imports from —, (b) equally named fragments that only meet in the merged document
+                let sites0 = mutate::collect_sites(&sch, &doc);
+                for _ in 0..2 {
+                    let name = mutate::MUTATIONS[rng.below(mutate::MUTATIONS.len())];
+                    let mut mc = mutate::MCtx { rng: &mut rng, sch: &sch, doc: &doc, sites: &sites0, only_def: None };
+                    let Some(m) = mutate::apply(name, &mut mc) else { continue };
+                    if let Some(plan) = imports::plan_project(&mut rng, &m.doc) {
+                        let mut p = imports::render_plan(&mut rng, &sdl, &plan, noisy);
+                        p.fault_files = imports::fault_files_of(&doc, &m.doc, &plan);
+                        p.labels = vec![m.label];
+                        p.origin = "import-mutant".into();
+                        projects.push(p);
+                    }
+                }
+                if let Some(mut plan) = imports::plan_project(&mut rng, &doc) {
+                    if let Some(class) = imports::duplicate_fragment_across_files(&mut rng, &mut plan) {
+                        let mut p = imports::render_plan(&mut rng, &sdl, &plan, noisy);
+                        p.labels = vec![Label { rule: "5.5.1.1".into(), class, mutation: "duplicate-fragment-name-across-files".into() }];
+                        p.origin = "import-mutant".into();
                         projects.push(p);
                     }
                 }
